@@ -47,7 +47,7 @@ pub fn mask_for(prop: &str) -> Mask {
         "C18" => Mask { out: true, errs: "none", obs: "insp", insp: true, leak: false },
         // memoization is judged against the memo-free grammar on the real crate (real_asserts);
         // the model contributes acceptance and outputs
-        "C11" => Mask { out: true, errs: "none", obs: "none", insp: false, leak: false },
+        "C11" => Mask { out: true, errs: "all", obs: "none", insp: false, leak: false },
         // representation independence is judged on the real crate, kind against kind (real_asserts);
         // the model contributes acceptance and outputs per kind
         "C10" => Mask { out: true, errs: "none", obs: "none", insp: false, leak: false },
@@ -114,7 +114,7 @@ const OPS: &[&str] = &[
     "just", "any", "oneof", "noneof", "sel", "end", "empty", "cust", "probe", "cfgjust", "cfgjustr", "then", "ithen", "theni", "delim", "padded", "group",
     "grouparr", "or", "choice", "choicev", "ornot", "not", "andis", "rewind", "map", "to", "ignored", "filter", "trymap", "trymapw", "validate",
     "mw", "tospan", "toslice", "boxed", "lazy", "collect", "exact", "run", "foldl", "foldr", "foldlw", "foldrw", "recover", "label", "maperr",
-    "memo", "rec", "ref", "let", "var", "withctx", "thenctx", "ignctx", "mapctx", "withstate", "nested", "tree", "pratt", "rep", "sep", "enum", "cfgrep", "cfgrepmin", "cfgrepmax",
+    "memo", "rec", "recd", "ref", "let", "var", "withctx", "thenctx", "ignctx", "mapctx", "withstate", "nested", "tree", "pratt", "rep", "sep", "enum", "cfgrep", "cfgrepmin", "cfgrepmax",
     "via", "skipuntil", "retry", "nesteddelim", "mws", "anyr", "selr", "text", "tpadded", "sleq", "newline",
 ];
 fn is_node(j: &J) -> bool {
@@ -175,7 +175,7 @@ fn subst_ref(j: &J, depth: u64, rep: &J) -> J {
     if is_node(j) {
         match node_op(j) {
             "ref" if j[1].as_u64() == Some(depth) => return rep.clone(),
-            "rec" => return json!(["rec", subst_ref(&j[1], depth + 1, rep)]),
+            "rec" | "recd" => return json!([node_op(j), subst_ref(&j[1], depth + 1, rep)]),
             _ => {}
         }
     }
@@ -183,7 +183,7 @@ fn subst_ref(j: &J, depth: u64, rep: &J) -> J {
 }
 /// expand every recursive definition k levels deep (C12); below that an always-failing parser
 pub fn unroll(j: &J, k: usize) -> J {
-    if is_node(j) && node_op(j) == "rec" {
+    if is_node(j) && (node_op(j) == "rec" || node_op(j) == "recd") {
         let body = &j[1];
         let mut u = json!(["cust", 0, false]);
         for _ in 0..k {
@@ -300,7 +300,7 @@ pub fn real_asserts(prop: &str, case: &Case, real: &Obs, all: &dyn Fn(&str, &str
             // the decorated / recursive grammar against its erasure / unrolling, both on the real crate
             let plain = match prop {
                 "C11" => {
-                    if !has_op(&case.gj, &["memo"]) || has_op(&case.gj, &["rec"]) {
+                    if !has_op(&case.gj, &["memo"]) || has_op(&case.gj, &["rec", "recd"]) {
                         return None;
                     }
                     erase(&case.gj, &["memo"])
@@ -312,7 +312,7 @@ pub fn real_asserts(prop: &str, case: &Case, real: &Obs, all: &dyn Fn(&str, &str
                     erase(&case.gj, &["label", "maperr"])
                 }
                 _ => {
-                    if !has_op(&case.gj, &["rec"]) || has_op(&case.gj, &["memo"]) {
+                    if !has_op(&case.gj, &["rec", "recd"]) || has_op(&case.gj, &["memo"]) {
                         return None;
                     }
                     unroll(&case.gj, case.inp.len() + 1)
